@@ -97,6 +97,18 @@ theorem media_roundtrip_parsed (e : Option Nat) (s : Str) (p : MediaPlaylist)
   obtain ⟨rest, ls, _, h2, h3⟩ := parseMediaWith_ok (bE e) s p h
   exact media_roundtrip_wf e s p h hk2 (assembled_mediaWF e ls p h3 (text_lines_good rest ls h2) ho)
 
+/-- **the canonical text of any well-formed value is read faithfully**: no parse in the hypotheses — for every
+value `p` with the structural facts `WF p e` (what `build` guarantees: numbering, resolved ranges, key coverage of maps,
+validation), keys that never vanish (`Persist`) and fields in the text domain (`MediaWF`), `to_string` succeeds and the
+parser returns exactly `p` from it. This is "the model says what the text says" with the value as the quantified
+object: the text is whatever the writer prints for it. -/
+theorem media_canonical_text (p : MediaPlaylist) (e : Option Nat) (wf : WF p e) (hk3 : Persist [] p.segments) (mwf : MediaWF p) :
+    ∃ text, p.show = .ok text ∧ parseMediaWith (bE e) text = .ok p := by
+  obtain ⟨lines, w1, w2⟩ := media_write_parse_wf p e wf hk3
+  refine ⟨pfxM3u ++ ['\n'] ++ renderLines lines, by simp [MediaPlaylist.show, w1], ?_⟩
+  rw [parseMedia_of_written (bE e) lines (written_lines_rt p mwf lines w1)]
+  exact w2
+
 /-- non-vacuity of `media_roundtrip_wf` / `media_roundtrip_parsed`: a concrete playlist with a key (explicit IV,
 KEYFORMAT, KEYFORMATVERSIONS), a map with byte range, chained byte ranges, a title with a comma, program date time,
 discontinuity, EXT-X-START and an unknown tag is in `MediaWF`, free of K2, and round-trips at string level -/
